@@ -36,7 +36,7 @@ def cases(run: Run):
         start = datetime(rng.randint(2015, 2021), rng.randint(1, 12), rng.randint(1, 28), rng.randint(0, 23), rng.randint(0, 59), rng.randint(0, 59))
         bodies = rng.choice([[], ["sun"], ["moon"], ["sun", "moon"], ["moon", "sun"], ["sun", "moon", "jupiter"], ["venus", "saturn"]])
         out.append({
-            "pos": pos, "vel": [float(v) for v in vel], "start": start.isoformat(), "t": rng.choice([0.0, 60.0, 3600.0, 86400.0, 5 * 86400.0, 20 * 86400.0, rng.uniform(0, 30 * 86400)]),
+            "pos": pos, "vel": [float(v) for v in vel], "start": start.isoformat(), "t": rng.choice([0.0, 60.0, 3600.0, 600.5, 3599.75, 86400.25, 5 * 86400.0, 20 * 86400.0 + 0.4, rng.uniform(0, 30 * 86400), rng.uniform(0, 7200)]),
             "file": rng.choice(FILES), "degree": rng.choice([0, 2, 2, 4, 8, 12, 20]), "order_le": rng.random() < 0.3, "bodies": bodies,
             "srp": rng.random() < 0.6, "gr": rng.random() < 0.5, "K": rng.choice([1, 1, 2, 3]), "ratio": rng.choice([0.02, 0.005, 0.1]),
             "eph_jd": rng.uniform(2457024.0, 2459800.0), "eph_k": rng.randint(0, 600), "shadow_bias": rng.random() < 0.35,
@@ -172,14 +172,17 @@ def impl_run(c):
     jd = JulianDate(jd0 + c["t"] / 86400)
     sun_now = np.array(Sun.getPosition(jd))
     if c["shadow_bias"]:
-        # put the satellite behind the Earth as seen from the Sun, near the shadow boundary
+        # put the satellite behind the Earth as seen from the Sun, with the Sun's disc cut by the Earth's limb: seen from the satellite the
+        # Earth (angular radius b) and the Sun (angular radius a) are c = b + u a apart, u from -1.3 (umbra) through the penumbra to +1.3 (full sun)
         s_hat = sun_now / np.linalg.norm(sun_now)
         perp = np.cross(s_hat, [0.3, -0.5, 0.8])
         perp /= np.linalg.norm(perp)
-        rr = np.linalg.norm(pos)
-        off = RE * (0.9 + 0.25 * ((c["eph_k"] % 17) / 16.0))
-        if off < rr:
-            pos = -s_hat * math.sqrt(rr * rr - off * off) + perp * off
+        rr = float(np.linalg.norm(pos))
+        b_ang = math.asin(RE / rr)
+        a_ang = math.asin(696000.0 / float(np.linalg.norm(sun_now)))
+        u = -1.3 + 2.6 * ((c["eph_k"] % 53) / 52.0)
+        c_ang = b_ang + u * a_ang
+        pos = -rr * (math.cos(c_ang) * s_hat + math.sin(c_ang) * perp)
     out = {"pos": [float(v) for v in pos], "N": N, "M": M, "jd": float(jd), "jd0": float(jd0)}
 
     def dyn(bodies, srp, gr, degree, order):
@@ -210,7 +213,11 @@ def impl_run(c):
         out["batch_cols"] = [[float(v) for v in d._differentialEquation(float(c["t"]), col.copy(), check_collision=False)] for col in cols]
     # pieces for the reference and for the model
     _dt = julianDateToDatetime(jd)
-    Mrot = np.array(spm._getRotationMatrix(jd, ReductionParams.build(_dt)))
+    Mcode = np.array(spm._getRotationMatrix(jd, ReductionParams.build(_dt)))
+    out["rot_code"] = [[float(v) for v in row] for row in Mcode]
+    # the Earth-fixed -> inertial rotation of the EXACT instant (microseconds), through the reduction that C04 checks
+    exact = ReductionParams.build(start + timedelta(seconds=c["t"]))
+    Mrot = np.array(exact.rot_pnr) @ np.array(exact.rot_w)
     out["rot"] = [[float(v) for v in row] for row in Mrot]
     out["sun"] = [float(v) for v in sun_now]
     out["moon"] = [float(v) for v in Moon.getPosition(jd)]
@@ -221,8 +228,9 @@ def impl_run(c):
     out["tb_fn"] = {b: [float(v) for v in spm._getThirdBodyAcceleration(pos, np.array(p))] for b, (p, _) in out["bodies_pos"].items()}
     out["frac"] = float(calculateSunVizFraction(pos, sun_now))
     out["const"] = {"P": float(const.SOLAR_PRESSURE), "au": float(const.AU2KM), "c": float(const.SPEED_OF_LIGHT)}
-    r_ecef = Mrot.T @ pos
+    r_ecef = Mcode.T @ pos
     out["r_ecef"] = [float(v) for v in r_ecef]
+    out["r_ecef_exact"] = [float(v) for v in (Mrot.T @ pos)]
     cnm, snm = loadGeopotentialCoefficients(GeopotentialModel(c["file"]))
     out["ns_ecef"] = [float(v) for v in nonSphericalAcceleration(r_ecef, Earth.mu, Earth.radius, cnm, snm, N, M)]
     v_, w_ = getNonSphericalHarmonics(r_ecef, Earth.radius, N + 1, M + 1)
@@ -270,10 +278,15 @@ def oracle(run: Run, c, impl):
         fails.append(("point-mass", f"with nothing configured the acceleration differs from -mu r/r^3 by {e:.3g} ({desc})"))
     if rel(np.array(T["pm"])[:3], vel) > 0:
         fails.append(("kinematics", f"the position derivative is not the velocity ({desc})"))
-    # geopotential: gradient of the potential built from the file's normalised coefficients, rotated with the instant's Earth-fixed matrix
+    # the rotation the right-hand side uses against the rotation of the exact instant
     Mrot = np.array(o["rot"])
+    dM = float(np.max(np.abs(np.array(o["rot_code"]) - Mrot)))
+    run.worse("earth-fixed-rotation", dM)
+    if not dM <= 2e-8:
+        fails.append(("earth-fixed-frame", f"the Earth-fixed frame the force model uses differs from the frame of that instant by {dM:.3g} (matrix entries) ({desc})"))
+    # geopotential: gradient of the potential built from the file's normalised coefficients, rotated with the instant's Earth-fixed matrix
     if N >= 2:
-        g = Mrot @ grad_ns(c["file"], N, M, np.array(o["r_ecef"]))
+        g = Mrot @ grad_ns(c["file"], N, M, np.array(o["r_ecef_exact"]))
         got = np.array(T["none"])[3:] - np.array(T["pm"])[3:]
         e = rel(got, g)
         run.worse("geopotential", e)
@@ -476,7 +489,7 @@ def main():
             "general degree/order: the harmonic sum is compared with a finite-difference gradient of a potential built from the file's normalised coefficients with an independent "
             "normalised Legendre recursion (1e-7 relative); the closed-form theorem covers J2",
             "Sun/Moon accuracy is checked against Vallado's low-precision formulas only (2e-3 / 1e-2 relative); the DE432 coefficients are data",
-            "the Earth-fixed rotation of the instant is taken from the code (C04 covers it)",
+            "the Earth-fixed rotation of the exact instant is built from ReductionParams (the reduction C04 checks), not from the force model's own helper",
         ],
     )
     run.rule = ("states from 200 km altitude to 10 Earth radii at random latitude/longitude, epochs 2015-2021 plus 0-30 days of elapsed time, the four coefficient files at degree 0-20 "
